@@ -9,12 +9,20 @@
   configuration `cfg` (element class normal/slim, indent unit, mini).  The only hypothesis is the one the property
   itself makes (DESIGN §8 #21): no element of the input carries the reserved name of the invisible wrapper.
 
-  String level (`…_partial` below): the step from the output *text* back to tokens needs the character-level lexer
-  (Model/Lexer of C01/C02, built by another group); what is missing is stated at each partial theorem.
+  String level: `formatter_output_lexes` / `formatter_output_reparses` (below) go from the output *text* back to
+  tokens with the character-level lexer of C01 (`lexStrict`, Model/Lexer.lean) and on to the plain parser's tree, for
+  single-root documents in the strict sub-language and the normal element class (pretty and mini formatter); what is
+  still missing (multi-root documents, the slim classes) is stated under "What is partial".
 -/
 import AHP.Lemmas.Format
+import AHP.Lemmas.FormatLexDoc
 namespace AHP.C11
 open AHP AHP.Fmt
+-- the lexer's side (namespace `AHP`) has declarations with the same short names as the formatter model
+-- (`AHP.Fmt`); inside this file the short names keep meaning the formatter model's
+export AHP.Fmt (Frame Node binaryAttrs boolString collapseSpaces dictDel dictSet docHTML endTag handleEnd
+  handleStart isAlnum isAlpha isVoid renderAttr run startTag step styleStr styleToDict toNodeL validAttrName
+  voidTags wrapToks)
 
 /-! #### table obligations: the sets of constants.py the statements below are about -/
 
@@ -108,6 +116,51 @@ theorem end_tag_text (n ind : Str) (kids : List Node) :
   · exact Or.inl h
   · exact Or.inr h.1
 
+/-! #### string level: the output text lexes back and re-parses to the same document -/
+
+/-- **C11 (string level, a).**  Pretty or mini formatter (normal element class, indent unit of spaces/tabs), any token
+    sequence whose plain-parser tree is a single-root document in the strict sub-language (`FNode.Strict`: well-formed
+    names and attribute items, text blocks that are data runs / references / comments, raw-text content free of its
+    closing expression, attribute stores that are re-read unchanged): the formatter's output TEXT is in the domain of
+    the strict lexer and lexes to `outToks` — the token rendering of the decorated tree, each `_indent` glued to the
+    data run before it (or a data run of its own). -/
+theorem formatter_output_lexes (cfg : Cfg) (hk : cfg.kind = .normal) (hi : IndentWS cfg) (toks : List Tok)
+    (h : NoWrapperStart toks) (ps : St) (hp : Plain.feed toks = .ok ps)
+    (n : Str) (st : AStore) (sc : Bool) (kids : List FNode)
+    (hroot : ps.root = some (FNode.elem n st sc kids).toNode) (hw : n ≠ wrapper)
+    (hs : (FNode.elem n st sc kids).Strict) (hdt : DtOK ps.doctype) :
+    ∃ out, format cfg toks = .ok out ∧ lexStrict out = some (outToks cfg ps.doctype (.elem n st sc kids)) := by
+  have ht := format_tree cfg toks h
+  rw [hp] at ht
+  obtain ⟨fs, hf, hr, hd⟩ := ht
+  refine ⟨renderToks (outToks cfg ps.doctype (.elem n st sc kids)), ?_, doc_lex cfg hi _ _ hs hdt⟩
+  rw [format_is_serialised_tree cfg toks fs hf, hr, hd, hroot]
+  exact doc_render cfg hk ps.doctype n st sc kids hw hs
+
+/-- trees with the same skeleton have the same canonical skeleton (`cskel` = `skel`, then empty data blocks dropped
+    and adjacent data blocks joined) — so `formatter_preserves_document` also reads with `cskel` -/
+theorem cskel_of_skel (a b : Node) (h : skel a = skel b) : cskel a = cskel b := by
+  unfold cskel; rw [h]
+
+/-- **C11 (string level, b).**  Under the same hypotheses: lexing the formatter's output text and building with the
+    plain parser gives a document with the same doctype whose tree equals the input's tree modulo formatting —
+    same elements, nesting, attribute stores and self-closing flags, references and comments verbatim, text equal
+    after removing white space (`cskel`: the white-space-only blocks the `_indent`s add between elements vanish,
+    an `_indent` glued to a data run is white space of that run). -/
+theorem formatter_output_reparses (cfg : Cfg) (hk : cfg.kind = .normal) (hi : IndentWS cfg) (toks : List Tok)
+    (h : NoWrapperStart toks) (ps : St) (hp : Plain.feed toks = .ok ps)
+    (n : Str) (st : AStore) (sc : Bool) (kids : List FNode)
+    (hroot : ps.root = some (FNode.elem n st sc kids).toNode) (hw : n ≠ wrapper)
+    (hs : (FNode.elem n st sc kids).Strict) (hdt : DtOK ps.doctype) :
+    ∃ out toks' ps', format cfg toks = .ok out ∧ lexStrict out = some toks' ∧
+      Plain.feed (toks'.map Tok.ofToken) = .ok ps' ∧ ps'.doctype = ps.doctype ∧
+      ps'.root.map cskel = ps.root.map cskel := by
+  obtain ⟨out, hout, hlex⟩ := formatter_output_lexes cfg hk hi toks h ps hp n st sc kids hroot hw hs hdt
+  refine ⟨out, _, _, hout, hlex, doc_reparse cfg hi ps.doctype n st sc kids hs hdt, rfl, ?_⟩
+  rw [hroot]
+  simp only [St.root, rootOfStack, Option.map_some]
+  rw [cskel_outRoot cfg hi n st sc kids hs]
+
 /-! #### non-vacuity -/
 
 /-- a document with a nested preformatted span, text before the root's end and an implicit close -/
@@ -119,6 +172,41 @@ example : NoWrapperStart sampleToks := by decide
 example : okIs (format (mkCfg .pretty (.str (str "  ")) false) sampleToks)
     "\n<div class=\"a b\" > x \n  <pre ><span >  y  </span></pre>&amp;\n</div>" = true := by decide
 example : okIs (Plain.html sampleToks) "<div class=\"a b\" > x \n<pre ><span >  y  </span></pre>&amp;</div>" = true := by decide
+
+
+/-- the plain parser's tree of `sampleToks` in lexical form -/
+def sampleTree : FNode :=
+  .elem (str "div") (mkStore [(str "class", some (str " a  b "))] {}) false
+    [.tok (.data (str " x \n")),
+     .elem (str "pre") {} false [.elem (str "span") {} false [.tok (.data (str "  y  "))]],
+     .tok (.entity (str "amp"))]
+
+/-- a document with raw text: `<!DOCTYPE html><div id="a"><script>if (a < b && c) { s = "</div>"; }</script><p>x</p></div>` -/
+def rawToks : List Tok :=
+  [.decl (str "DOCTYPE html"), .start (str "div") [(str "id", some (str "a"))], .start (str "script") [],
+   .data (str "if (a < b && c) { s = \"</div>\"; }"), .end_ (str "script"), .start (str "p") [], .data (str "x"),
+   .end_ (str "p"), .end_ (str "div")]
+
+def rawTree : FNode :=
+  .elem (str "div") (mkStore [(str "id", some (str "a"))] {}) false
+    [.elem (str "script") {} false [.tok (.data (str "if (a < b && c) { s = \"</div>\"; }"))],
+     .elem (str "p") {} false [.tok (.data (str "x"))]]
+
+/-- the hypotheses of `formatter_output_reparses` are met by `sampleToks` (pretty class, two spaces) … -/
+example : ∃ out toks' ps', format (mkCfg .pretty (.str (str "  ")) false) sampleToks = .ok out ∧
+    lexStrict out = some toks' ∧ Plain.feed (toks'.map Tok.ofToken) = .ok ps' ∧ ps'.doctype = none ∧
+    ps'.root.map cskel = some (cskel sampleTree.toNode) :=
+  formatter_output_reparses (mkCfg .pretty (.str (str "  ")) false) rfl (by decide) sampleToks (by decide)
+    ⟨[], some sampleTree.toNode, none, 0, 0⟩ (by rfl) _ _ _ _ rfl (by decide)
+    (by simp only [FNode.Strict, StrictL]; decide) trivial
+
+/-- … and by a document with a doctype and a `<script>` whose content has `<`, `&&` and `</div>` (mini class) -/
+example : ∃ out toks' ps', format (mkCfg .mini .dflt false) rawToks = .ok out ∧
+    lexStrict out = some toks' ∧ Plain.feed (toks'.map Tok.ofToken) = .ok ps' ∧
+    ps'.doctype = some (str "DOCTYPE html") ∧ ps'.root.map cskel = some (cskel rawTree.toNode) :=
+  formatter_output_reparses (mkCfg .mini .dflt false) rfl (by decide) rawToks (by decide)
+    ⟨[], some rawTree.toNode, some (str "DOCTYPE html"), 0, 0⟩ (by rfl) _ _ _ _ rfl (by decide)
+    (by simp only [FNode.Strict, StrictL]; decide) (by decide)
 
 /-!
   #### What is partial
